@@ -74,6 +74,13 @@ def extra_forms():
     add('cse-sin-cos', '(sin(x[0]*x[1]+2)+cos(x[0]*x[1]+2))*u*v*dx')
     add('cse-exp-log', '(exp(f*f+1)*log(f*f+1) + sqrt(f*f+1)/tan(f*f+1))*u*v*dx', args=F)
     add('cse-repeated', '((f+1)*(f+1)*(f+1) + (f+1)*(f+1))*u*v*dx + (f+1)*(f+1)*Dx(u,0)*v*dx', args=F)
+    # both orientations of a non-commutative operation on the same (large) operands in one form: a common-subexpression
+    # pass that identifies them computes one of the two terms with the wrong coefficient
+    FG = {'f': ['field', [], True], 'g': ['field', [], True]}
+    add('cse-mirror-div', '((1+f*f)/(1+g*g))*inner(grad(u),grad(v))*dx + ((1+g*g)/(1+f*f))*u*v*dx', args=FG)
+    add('cse-mirror-sub', '((f*f+g) - (g*g+f))*u*v*dx + ((g*g+f) - (f*f+g))*Dx(u,0)*v*dx', args=FG)
+    add('cse-mirror-cross', '(inner(cross(p, q), grad(u))*v + inner(cross(q, p), grad(v))*u)*dx', dim=3,
+        args={'p': ['field', [3], True], 'q': ['field', [3], True]})
     add('const-fold', '((0*f + 1*u) * (v/1) - 0 + (-1)*u*v + u*v*(-1) + (2*3)*u*v)*dx', args=F)
     add('neg-fold', '(u - (-v))*(v + (-u))*dx')
     add('hess-3d', 'inner(hess(u),hess(v))*dx', dim=3)
